@@ -31,8 +31,13 @@ result is the left-most insertion point, which `searchLeft` computes by a linear
 right-most insertion point, numpy's `side="right"` compares with `key < x`).
 
 Degenerate case kept on purpose: a one-sample series is accepted by `TimeSeries` (only empty arrays are
-rejected); there `lo = hi = 0`, the weights are `0/0`, and the real code returns NaN for `t = x[0]` (the
-model on `Float` does the same).  The theorems about interpolation therefore assume two samples.
+rejected); there `lo = hi = 0`, the weights are `0/0`, and scipy returns NaN for `t = x[0]` (`interpRow` on
+`Float` does the same).
+>>> Variant switch `hold` (one defect found in the tree, see checks/c48.py): `interp false` is the code as
+found (`interpolate` always calls interp1d); `interp true` is `interpolate` with the one-sample guard
+`if method == "linear" and len(self.times) == 1: return np.repeat(self.data[:1], len(t), axis=0)`.
+The check probes the real code once and runs the driver with the matching variant.  The theorems about
+interpolation hold for both variants from two samples on, and for `hold = true` also for one sample.
 
 `np.diff(times) > 0` is modelled as `times[i] < times[i+1]` (equivalent for finite doubles: a difference
 of distinct doubles is never rounded to zero).  Negative (wrapping) column indices are not modelled:
@@ -134,7 +139,7 @@ variable [Add α] [Sub α] [Mul α] [Div α] [LT α] [DecidableLT α]
 def lerp (xlo xhi t ylo yhi : α) : α :=
   ((t - xlo) / (xhi - xlo)) * yhi + ((xhi - t) / (xhi - xlo)) * ylo
 
-/-- `TimeSeries.interpolate(t)` for one query time (see the file header) -/
+/-- scipy's `interp1d(kind="linear", fill_value=(data[0], data[-1]))` for one query time (see the file header) -/
 def interpRow (l : List (Sample α m)) (hl : 0 < l.length) (t : α) : Vector α m :=
   let hi := hiIdx l.length (searchLeft l t)
   have hhi : hi < l.length := hiIdx_lt _ hl
@@ -148,16 +153,21 @@ def interpRow (l : List (Sample α m)) (hl : 0 < l.length) (t : α) : Vector α 
   let y := if t < first.t then first.row else y
   if last.t < t then last.row else y
 
+/-- `TimeSeries.interpolate(t, method="linear")` for one query time; `hold` is the variant switch of the file
+    header (`true`: a one-sample series is held constant instead of going through interp1d) -/
+def interp (hold : Bool) (l : List (Sample α m)) (hl : 0 < l.length) (t : α) : Vector α m :=
+  if hold && l.length == 1 then l[0].row else interpRow l hl t
+
 /-- `interpolate(new_times)` -/
-def resampleRows (l : List (Sample α m)) (hl : 0 < l.length) (nt : List α) : List (Vector α m) :=
-  nt.map (interpRow l hl)
+def resampleRows (hold : Bool) (l : List (Sample α m)) (hl : 0 < l.length) (nt : List α) : List (Vector α m) :=
+  nt.map (interp hold l hl)
 
 /-- `TimeSeries.resample(new_times)` (the `target_dt` form is not modelled) -/
-def resample (s : TS α m) (nt : List α) : Except Err (TS α m) :=
+def resample (hold : Bool) (s : TS α m) (nt : List α) : Except Err (TS α m) :=
   checked s.samples fun h =>
     if !strictInc nt then .error .notIncreasing
     else if nt.isEmpty then .error .empty
-    else .ok { samples := nt.map (fun t => ⟨t, interpRow s.samples h t⟩), mapping := s.mapping }
+    else .ok { samples := nt.map (fun t => ⟨t, interp hold s.samples h t⟩), mapping := s.mapping }
 
 /-- numpy broadcasting of a 1-D parameter value against `k` selected columns -/
 def broadcast (v : List α) (k : Nat) : Option (List α) :=
@@ -192,7 +202,7 @@ def applyGain (s : TS α m) (name : String) (v : List α) : Except Err (TS α m)
   checked s.samples fun _ => (elemCore (· * ·) s.mapping name v s.samples).map fun l => { s with samples := l }
 
 /-- `apply_delay`: the sensor's columns are resampled at `times - delay`, the others are kept -/
-def applyDelay (s : TS α m) (name : String) (d : α) : Except Err (TS α m) :=
+def applyDelay (hold : Bool) (s : TS α m) (name : String) (d : α) : Except Err (TS α m) :=
   checked s.samples fun h =>
     match lookup s.mapping name with
     | none => .error .unknownSignal
@@ -205,7 +215,7 @@ def applyDelay (s : TS α m) (name : String) (d : α) : Except Err (TS α m) :=
         let nt := (times s.samples).map (· - d)
         if !strictInc nt then .error .notIncreasing
         else
-          let res := resampleRows sub hsub nt
+          let res := resampleRows hold sub hsub nt
           .ok { s with samples := List.zipWith (fun p r => ⟨p.t, setCols cols r.toList p.row⟩) s.samples res }
 
 /-- `ts.times[i:j], ts.data[i:j]` and the `__post_init__` of the result -/
@@ -270,22 +280,22 @@ def singletons (delays : Vector α m) : List (α × List (Fin m)) :=
 
 /-- one iteration of the group loop: `data_out[:, cols] = TimeSeries(times, data[:, cols]).resample(new_times + d).data`.
     `data_out` starts as `np.empty`: its cells are `none` until written. -/
-def processGroup (l : List (Sample α m)) (hl : 0 < l.length) (nt : List α)
+def processGroup (hold : Bool) (l : List (Sample α m)) (hl : 0 < l.length) (nt : List α)
     (out : List (Vector (Option α) m)) (g : α × List (Fin m)) : List (Vector (Option α) m) :=
   let sub := selectCols g.2 l
   have hsub : 0 < sub.length := by simpa [sub, selectCols] using hl
-  let res := resampleRows sub hsub (nt.map (· + g.1))
+  let res := resampleRows hold sub hsub (nt.map (· + g.1))
   List.zipWith (fun o r => setCols g.2 (r.toList.map some) o) out res
 
 /-- the whole group loop, for an arbitrary list of groups -/
-def resampleGroups (l : List (Sample α m)) (hl : 0 < l.length) (nt : List α)
+def resampleGroups (hold : Bool) (l : List (Sample α m)) (hl : 0 < l.length) (nt : List α)
     (groups : List (α × List (Fin m))) : List (Vector (Option α) m) :=
-  groups.foldl (processGroup l hl nt) (List.replicate nt.length (Vector.replicate m none))
+  groups.foldl (processGroup hold l hl nt) (List.replicate nt.length (Vector.replicate m none))
 
 /-- `apply_resample_and_delay` / the column-wise reference, parameterised by the grouping.  The errors of the
     real code are: the `resample` of the first group rejects an empty `times` (`empty`) or a non-increasing
     `times + d` (`notIncreasing`); the final `TimeSeries(times, data_out)` validates `times` itself. -/
-def resampleAndDelayWith [Neg α] (grouping : Vector α m → List (α × List (Fin m)))
+def resampleAndDelayWith [Neg α] (hold : Bool) (grouping : Vector α m → List (α × List (Fin m)))
     (s : TS α m) (nt : List α) (dflt : α) (sd : List (String × α)) (pred : Bool) :
     Except Err (List α × List (Vector (Option α) m)) :=
   checked s.samples fun h =>
@@ -296,13 +306,13 @@ def resampleAndDelayWith [Neg α] (grouping : Vector α m → List (α × List (
       if nt.isEmpty then .error .empty
       else if groups.any (fun g => !strictInc (nt.map (· + g.1))) then .error .notIncreasing
       else if !strictInc nt then .error .notIncreasing
-      else .ok (nt, resampleGroups s.samples h nt groups)
+      else .ok (nt, resampleGroups hold s.samples h nt groups)
 
-def applyResampleAndDelay [Neg α] [BEq α] (s : TS α m) (nt : List α) (dflt : α) (sd : List (String × α)) (pred : Bool) :=
-  resampleAndDelayWith groupByDelay s nt dflt sd pred
+def applyResampleAndDelay [Neg α] [BEq α] (hold : Bool) (s : TS α m) (nt : List α) (dflt : α) (sd : List (String × α)) (pred : Bool) :=
+  resampleAndDelayWith hold groupByDelay s nt dflt sd pred
 
-def applyResampleAndDelayColumnwise [Neg α] (s : TS α m) (nt : List α) (dflt : α) (sd : List (String × α)) (pred : Bool) :=
-  resampleAndDelayWith singletons s nt dflt sd pred
+def applyResampleAndDelayColumnwise [Neg α] (hold : Bool) (s : TS α m) (nt : List α) (dflt : α) (sd : List (String × α)) (pred : Bool) :=
+  resampleAndDelayWith hold singletons s nt dflt sd pred
 
 /-! ### `SignalTransform._apply_gains_biases` -/
 
